@@ -136,7 +136,7 @@ func KnownNonNilError(v ssa.Value, b *ssa.BasicBlock) bool {
 		}
 		return len(x.Edges) > 0
 	}
-	if nn, known := ErrNonNil(DomConds(b), v); known && nn {
+	if nn, known := ErrKnown(v, b); known && nn {
 		return true
 	}
 	// conditions attached to the block itself via its dominating If on the incoming edge
@@ -148,8 +148,91 @@ func KnownNilError(v ssa.Value, b *ssa.BasicBlock) bool {
 	if IsNilConst(v) {
 		return true
 	}
-	if nn, known := ErrNonNil(DomConds(b), v); known && !nn {
+	if nn, known := ErrKnown(v, b); known && !nn {
 		return true
 	}
 	return false
+}
+
+
+// nilAsserting: function h returns normally only if its parameter k (an error) is nil: `func check(err error) { if err !=
+// nil { log.Fatal(err) } }`.  Returns the parameter indices for which this holds.
+func nilAsserting(h *ssa.Function) []int {
+	if h == nil || len(h.Blocks) == 0 {
+		return nil
+	}
+	var out []int
+	g := G(h)
+	for k, p := range h.Params {
+		if !IsErrorType(p.Type()) {
+			continue
+		}
+		ok := true
+		n := 0
+		for _, b := range h.Blocks {
+			if !g.Live(b) {
+				continue
+			}
+			if _, dead := g.NoRet[b]; dead {
+				continue
+			}
+			if _, isRet := b.Instrs[len(b.Instrs)-1].(*ssa.Return); !isRet {
+				continue
+			}
+			n++
+			if nn, known := ErrNonNil(DomConds(b), p); !known || nn {
+				ok = false
+			}
+		}
+		if ok && n > 0 {
+			out = append(out, k)
+		}
+	}
+	return out
+}
+
+// NilAssertedAt: a call `h(..., e, ...)` to a nil-asserting helper dominates instruction `at` (so e == nil there).
+func NilAssertedAt(e ssa.Value, at ssa.Instruction) bool {
+	refs := e.Referrers()
+	if refs == nil || at == nil {
+		return false
+	}
+	for _, ref := range *refs {
+		c, ok := ref.(*ssa.Call)
+		if !ok || c == at {
+			continue
+		}
+		h := c.Call.StaticCallee()
+		if h == nil {
+			continue
+		}
+		for _, k := range nilAsserting(h) {
+			if k < len(c.Call.Args) && c.Call.Args[k] == e && InstrDominates(c, at) {
+				return true
+			}
+		}
+	}
+	return false
+}
+
+// ErrKnown: what is known about error value e at the start of block b (branch conditions, nil-asserting helpers).
+func ErrKnown(e ssa.Value, b *ssa.BasicBlock) (nonnil bool, known bool) {
+	if nn, known := ErrNonNil(DomConds(b), e); known {
+		return nn, true
+	}
+	if len(b.Instrs) > 0 && NilAssertedAt(e, b.Instrs[0]) {
+		return false, true
+	}
+	return false, false
+}
+
+// ErrKnownAt is ErrKnown for a position inside a block.
+func ErrKnownAt(e ssa.Value, at ssa.Instruction) (nonnil bool, known bool) {
+	if nn, known := ErrNonNil(DomConds(at.Block()), e); known {
+		return nn, true
+	}
+	if NilAssertedAt(e, at) {
+		return false, true
+	}
+	return false, false
 }
